@@ -68,6 +68,8 @@ type Case struct {
 	// above, "off" nothing (like slog.DiscardHandler). What the client gets does not depend on it; with "off" no record exists
 	// to be judged.
 	LogLevel string `json:"log_level,omitempty"`
+	// LongTarget: the request target carries a further query parameter of that many bytes (a request line of several KiB)
+	LongTarget int `json:"long_target,omitempty"`
 }
 
 var ctxStates = []string{"", "", "", "canceled", "deadline", "canceled-in-mw"}
@@ -310,7 +312,11 @@ func checkCase(c *Case) (err error) {
 	case "options":
 		method, path = "OPTIONS", "/only-post"
 	}
-	req := httptest.NewRequest(method, path+"?query=qv", nil)
+	target := path + "?query=qv"
+	if c.LongTarget > 0 {
+		target += "&pad=" + strings.Repeat("p", c.LongTarget)
+	}
+	req := httptest.NewRequest(method, target, nil)
 	switch c.Ctx {
 	case "canceled":
 		cctx, cancel := context.WithCancel(req.Context())
@@ -413,7 +419,7 @@ func checkCase(c *Case) (err error) {
 		if strings.Contains(text, "stale-") {
 			return fmt.Errorf("%sthe diagnostic record carries a parameter of an earlier request (stale-...): %s", desc, text)
 		}
-		if !strings.Contains(text, method+" "+path+"?query=qv") {
+		if !strings.Contains(text, method+" "+target) {
 			return fmt.Errorf("%sthe diagnostic record does not contain the request line %q: %s", desc, method+" "+path, text)
 		}
 		for _, h := range c.Headers {
@@ -492,6 +498,7 @@ func genCase(t *rapid.T) *Case {
 	c.Ctx = gen.Pick(t, ctxStates, "ctx")
 	c.CloneWith = gen.Chance(t, 1, 3, "clonewith")
 	c.LogLevel = gen.Pick(t, []string{"", "", "", "error", "off"}, "loglevel")
+	c.LongTarget = gen.Pick(t, []int{0, 0, 0, 0, 1000, 4090, 5000, 70000}, "longtarget")
 	n := gen.IntR(t, 0, 6, "nheaders")
 	for i := 0; i < n; i++ {
 		tok := fmt.Sprintf("tok%dZ%dq", i, gen.IntR(t, 100000, 999999, "tok"))
